@@ -50,6 +50,34 @@ def inspection_sites(rep):
                 others = [ast.unparse(p) for p in parts if not isinstance(p, ast.Constant)]
                 if consts and any('.value' in o and '.upper()' not in o and 'normalized' not in o for o in others):
                     offenders.append('%s:%d %s' % (rel, n.lineno, ast.unparse(n)[:70]))
+    # ... the same for membership tests of the raw value in a NAMED collection of words (token.value in KW_CONSTANTS): the
+    # name is resolved in the real module
+    import importlib
+    for rel in FILES:
+        tree = src.module_tree(rel)
+        if tree is None:
+            continue
+        try:
+            mod = importlib.import_module(rel[:-3].replace('/', '.'))
+        except Exception:       # noqa
+            mod = None
+        for n in ast.walk(tree):
+            if not (isinstance(n, ast.Compare) and len(n.ops) == 1 and isinstance(n.ops[0], (ast.In, ast.NotIn))):
+                continue
+            left, right = ast.unparse(n.left), n.comparators[0]
+            if '.value' not in left or '.upper()' in left or 'normalized' in left:
+                continue
+            coll = None
+            if isinstance(right, ast.Name) and mod is not None:
+                coll = getattr(mod, right.id, None)
+            elif isinstance(right, ast.Attribute):
+                try:
+                    coll = eval(compile(ast.Expression(right), '<c11>', 'eval'), vars(mod) if mod else {})
+                except Exception:   # noqa
+                    coll = None
+            if isinstance(coll, (set, frozenset, tuple, list, dict)) and any(
+                    isinstance(w, str) and any(ch.isalpha() for ch in w) for w in coll):
+                offenders.append('%s:%d %s' % (rel, n.lineno, ast.unparse(n)[:70]))
     common.structural(rep, 'C11/parser/no case- or spacing-sensitive comparison of token text with a keyword constant',
                       'sqlparse', not offenders, {'offenders': offenders})
     # constants used for keyword matching are spelled upper-case with single blanks (they are compared with
